@@ -13,7 +13,10 @@ package main
 import (
 	"fmt"
 	"go/ast"
+	"go/parser"
 	"go/token"
+	"os"
+	"path/filepath"
 	"strings"
 )
 
@@ -40,6 +43,9 @@ var dirSpecs = []dirSpec{
 	{"http/dir-lookup-http-handler.go", "lookupHTTPHandler", "LookupHTTPHandler"},
 	{"signaling/dir-signal-peer.go", "signalPeer", "SignalPeer"},
 	{"peer/directive.go", "getPeer", "GetPeer"},
+	{"signaling/dir-handle-signal-peer.go", "handleSignalPeer", "HandleSignalPeer"},
+	{"pubsub/dir-build-channel-subscription.go", "buildChannelSubscription", "BuildChannelSubscription"},
+	{"router/directive.go", "DiscoverRoutesWithPeerIDs", "DiscoverRoutes"},
 }
 
 // Go type (as written in the source) -> kind. The kind decides the Lean type and which
@@ -53,7 +59,22 @@ const (
 	dirKDialer                  // *dialer.DialerOpts; .GetAddress() is the nil-safe getter
 	dirKURL                     // *url.URL; .String() is net/url's serialisation (abstract)
 	dirKStrView                 // result of peer.ID.String(): a byte string
+	dirKSession                 // signaling.SignalPeerSession: an interface value, compared by Go's interface ==
+	dirKPrivKey                 // crypto.PrivKey: an interface value
 )
+
+// dirTypeParam: the Lean type parameter standing for an abstract Go type.
+func dirTypeParam(k dirTkind) string {
+	switch k {
+	case dirKURL:
+		return "U"
+	case dirKSession:
+		return "S"
+	case dirKPrivKey:
+		return "K"
+	}
+	return ""
+}
 
 func dirTypeString(e ast.Expr) string {
 	switch x := e.(type) {
@@ -87,6 +108,12 @@ func dirKindOf(pkg, t string) (dirTkind, error) {
 		return dirKDialer, nil
 	case "*url.URL":
 		return dirKURL, nil
+	case "crypto.PrivKey":
+		return dirKPrivKey, nil
+	case "SignalPeerSession":
+		if pkg == "signaling" {
+			return dirKSession, nil
+		}
 	}
 	return 0, fmt.Errorf("unsupported field type %q", t)
 }
@@ -99,8 +126,8 @@ func dirLeanType(k dirTkind) string {
 		return "Nat"
 	case dirKDialer:
 		return "Option DialerOpts"
-	case dirKURL:
-		return "U"
+	case dirKURL, dirKSession, dirKPrivKey:
+		return dirTypeParam(k)
 	}
 	return "?"
 }
@@ -117,6 +144,26 @@ type dirInfo struct {
 	hasURL bool
 	cmps   [][2]string // lean (lhs over a, rhs over b)
 	src    []string    // the Go comparisons, for the doc comment
+
+	tparams []string // Lean type parameters of the structure (abstract Go types), in field order
+	// the head of IsEquivalent: `od, ok := other.(X)`
+	never          bool   // the body is `return false` outright: no assertion at all
+	assertIface    string // X is this interface of the directive's own package
+	assertConcrete bool   // X is *goType (the concrete directive type itself)
+	methodNames    map[string]bool // names of all methods of the concrete type (whole package)
+}
+
+func (i *dirInfo) addTParam(k dirTkind) {
+	p := dirTypeParam(k)
+	if p == "" {
+		return
+	}
+	for _, q := range i.tparams {
+		if q == p {
+			return
+		}
+	}
+	i.tparams = append(i.tparams, p)
 }
 
 // dirFindStruct returns the fields of `type name struct{...}`.
@@ -209,13 +256,17 @@ func (x *dirXlate) expr(e ast.Expr) (string, dirTkind, error) {
 		return x.expr(v.X)
 	case *ast.SelectorExpr: // d.field
 		id, ok := v.X.(*ast.Ident)
-		if !ok || id.Name != x.recv {
-			// od.field would read a field through an interface: impossible in Go
+		// od.field reads a field of the other directive: possible only when the assertion is to
+		// the concrete type (through an interface it does not compile)
+		if !ok || (id.Name != x.recv && !(id.Name == x.other && x.info.assertConcrete)) {
 			return "", 0, fmt.Errorf("unsupported selector %s", dirExprString(e))
 		}
 		k, ok := x.fieldKind(v.Sel.Name)
 		if !ok {
 			return "", 0, fmt.Errorf("unknown field %s", v.Sel.Name)
+		}
+		if id.Name == x.other {
+			return "b." + v.Sel.Name, k, nil
 		}
 		return "a." + v.Sel.Name, k, nil
 	case *ast.CallExpr:
@@ -314,6 +365,8 @@ func (x *dirXlate) cmp(e ast.Expr, want token.Token) error {
 	if lk == dirKDialer || lk == dirKURL {
 		return fmt.Errorf("pointer comparison in %s", dirExprString(e))
 	}
+	// dirKSession / dirKPrivKey: Go's == on interface values (identity of the dynamic value for the
+	// pointer-typed implementations; the abstract type carries a decidable equality in Lean)
 	// the left side must talk about this directive and the right about the other
 	if !strings.Contains(l, "a.") || strings.Contains(l, "b.") || !strings.Contains(r, "b.") || strings.Contains(r, "a.") {
 		return fmt.Errorf("comparison %s does not compare this directive (left) with the other (right)", dirExprString(e))
@@ -354,6 +407,11 @@ func (x *dirXlate) body(fd *ast.FuncDecl) error {
 	param := fd.Type.Params.List[0].Names[0].Name
 	x.recv = dirRecvName(fd)
 	st := fd.Body.List
+	// `return false` and nothing else: the directive is never de-duplicated
+	if len(st) == 1 && dirReturnsBool(st[0], "false") {
+		x.info.never = true
+		return nil
+	}
 	if len(st) < 3 {
 		return fmt.Errorf("IsEquivalent body too short")
 	}
@@ -365,6 +423,17 @@ func (x *dirXlate) body(fd *ast.FuncDecl) error {
 	ta, ok := as.Rhs[0].(*ast.TypeAssertExpr)
 	if !ok || !dirIsIdent(ta.X, param) {
 		return fmt.Errorf("IsEquivalent does not start with a type assertion of its argument")
+	}
+	switch t := ta.Type.(type) {
+	case *ast.Ident: // an interface of the same package
+		x.info.assertIface = t.Name
+	case *ast.StarExpr: // the concrete type itself
+		if !dirIsIdent(t.X, x.info.spec.goType) {
+			return fmt.Errorf("IsEquivalent asserts a foreign concrete type %s", dirTypeString(t))
+		}
+		x.info.assertConcrete = true
+	default:
+		return fmt.Errorf("IsEquivalent asserts an unsupported type %s", dirTypeString(ta.Type))
 	}
 	x.other = as.Lhs[0].(*ast.Ident).Name
 	okName := as.Lhs[1].(*ast.Ident).Name
@@ -429,6 +498,7 @@ func dirExtractDirective(sp dirSpec) (*dirInfo, error) {
 		}
 		for _, n := range fl.Names {
 			info.fields = append(info.fields, dirField{n.Name, k})
+			info.addTParam(k)
 			if k == dirKURL {
 				info.hasURL = true
 			}
@@ -443,10 +513,96 @@ func dirExtractDirective(sp dirSpec) (*dirInfo, error) {
 	if err := x.body(ie); err != nil {
 		return nil, fmt.Errorf("%s (%s): %v", sp.goType, sp.file, err)
 	}
-	if len(info.cmps) == 0 {
+	if len(info.cmps) == 0 && !info.never {
 		return nil, fmt.Errorf("%s: IsEquivalent compares nothing", sp.goType)
 	}
+	if info.methodNames, err = dirPackageMethodNames(sp.file, sp.goType); err != nil {
+		return nil, err
+	}
+	if info.assertIface != "" {
+		if _, err := dirIfaceMethods(sp.file, info.assertIface); err != nil {
+			return nil, fmt.Errorf("%s: %v", sp.goType, err)
+		}
+	}
 	return info, nil
+}
+
+// dirPackageMethodNames: the names of all methods declared on goType anywhere in the package
+// directory of rel (non-test files).
+func dirPackageMethodNames(rel, goType string) (map[string]bool, error) {
+	dir := filepath.Dir(filepath.Join(repo, rel))
+	ents, err := os.ReadDir(dir)
+	if err != nil {
+		return nil, err
+	}
+	out := map[string]bool{}
+	for _, e := range ents {
+		n := e.Name()
+		if e.IsDir() || !strings.HasSuffix(n, ".go") || strings.HasSuffix(n, "_test.go") {
+			continue
+		}
+		f, err := parser.ParseFile(token.NewFileSet(), filepath.Join(dir, n), nil, 0)
+		if err != nil {
+			return nil, err
+		}
+		for m := range dirMethodsOf(f, goType) {
+			out[m] = true
+		}
+	}
+	return out, nil
+}
+
+// dirIfaceMethods: the methods of interface `name` (declared in the package directory of rel)
+// beyond the embedded directive.Directive. Any other embedding is refused.
+func dirIfaceMethods(rel, name string) ([]string, error) {
+	dir := filepath.Dir(filepath.Join(repo, rel))
+	ents, err := os.ReadDir(dir)
+	if err != nil {
+		return nil, err
+	}
+	for _, e := range ents {
+		n := e.Name()
+		if e.IsDir() || !strings.HasSuffix(n, ".go") || strings.HasSuffix(n, "_test.go") {
+			continue
+		}
+		f, err := parser.ParseFile(token.NewFileSet(), filepath.Join(dir, n), nil, 0)
+		if err != nil {
+			return nil, err
+		}
+		for _, d := range f.Decls {
+			gd, ok := d.(*ast.GenDecl)
+			if !ok || gd.Tok != token.TYPE {
+				continue
+			}
+			for _, s := range gd.Specs {
+				ts := s.(*ast.TypeSpec)
+				if ts.Name.Name != name {
+					continue
+				}
+				it, ok := ts.Type.(*ast.InterfaceType)
+				if !ok {
+					return nil, fmt.Errorf("asserted type %s is not an interface", name)
+				}
+				var ms []string
+				for _, m := range it.Methods.List {
+					if len(m.Names) == 0 {
+						if dirTypeString(m.Type) != "directive.Directive" {
+							return nil, fmt.Errorf("interface %s embeds %s", name, dirTypeString(m.Type))
+						}
+						continue
+					}
+					for _, mn := range m.Names {
+						ms = append(ms, mn.Name)
+					}
+				}
+				if len(ms) == 0 {
+					return nil, fmt.Errorf("interface %s has no methods of its own: every directive satisfies it", name)
+				}
+				return ms, nil
+			}
+		}
+	}
+	return nil, fmt.Errorf("interface %s not found", name)
 }
 
 // dirCheckDialerOpts verifies the shape of dialer.DialerOpts and its nil-safe GetAddress.
@@ -521,15 +677,30 @@ func genDirectives() (string, error) {
 	sb.WriteString("/-- `(*DialerOpts).GetAddress()`: nil-safe getter. -/\n")
 	sb.WriteString("def DialerOpts.getAddress : Option DialerOpts → Bytes\n  | none => []\n  | some d => d.address\n\n")
 	var names []string
+	var infos []*dirInfo
+	allT := []string{}
 	for _, sp := range dirSpecs {
 		info, err := dirExtractDirective(sp)
 		if err != nil {
 			return "", err
 		}
+		infos = append(infos, info)
 		names = append(names, sp.lean)
-		params, tyArgs := "", ""
-		if info.hasURL {
-			params, tyArgs = " (U : Type)", " U"
+		params, tyArgs, impl := "", "", ""
+		for _, t := range info.tparams {
+			params += " (" + t + " : Type)"
+			tyArgs += " " + t
+			impl += " {" + t + " : Type}"
+			if t != "U" {
+				impl += " [DecidableEq " + t + "]"
+			}
+			seen := false
+			for _, q := range allT {
+				seen = seen || q == t
+			}
+			if !seen {
+				allT = append(allT, t)
+			}
 		}
 		sb.WriteString(fmt.Sprintf("/-- `%s` (%s). -/\n", sp.goType, sp.file))
 		sb.WriteString(fmt.Sprintf("structure %s%s where\n", sp.lean, params))
@@ -537,11 +708,16 @@ func genDirectives() (string, error) {
 			sb.WriteString(fmt.Sprintf("  %s : %s\n", f.name, dirLeanType(f.kind)))
 		}
 		sb.WriteString("deriving DecidableEq, Repr\n\n")
+		if info.never {
+			sb.WriteString("/-- Go: the body of IsEquivalent is `return false` (never de-duplicated). -/\n")
+			sb.WriteString(fmt.Sprintf("def %s.isEquivalent%s (_a _b : %s%s) : Bool :=\n  false\n\n", sp.lean, impl, sp.lean, tyArgs))
+			continue
+		}
 		sb.WriteString("/-- Go: " + strings.Join(info.src, "  ;  ") + " -/\n")
 		if info.hasURL {
-			sb.WriteString(fmt.Sprintf("def %s.isEquivalent {U : Type} (urlString : U → Bytes) (a b : %s U) : Bool :=\n  ", sp.lean, sp.lean))
+			sb.WriteString(fmt.Sprintf("def %s.isEquivalent%s (urlString : U → Bytes) (a b : %s%s) : Bool :=\n  ", sp.lean, impl, sp.lean, tyArgs))
 		} else {
-			sb.WriteString(fmt.Sprintf("def %s.isEquivalent (a b : %s%s) : Bool :=\n  ", sp.lean, sp.lean, tyArgs))
+			sb.WriteString(fmt.Sprintf("def %s.isEquivalent%s (a b : %s%s) : Bool :=\n  ", sp.lean, impl, sp.lean, tyArgs))
 		}
 		var cs []string
 		for _, c := range info.cmps {
@@ -551,9 +727,107 @@ func genDirectives() (string, error) {
 		sb.WriteString("\n\n")
 	}
 	sb.WriteString("/-- The directive types covered, in generation order. -/\n")
-	sb.WriteString("def directiveNames : List String := [\"" + strings.Join(names, "\", \"") + "\"]\n")
+	sb.WriteString("def directiveNames : List String := [\"" + strings.Join(names, "\", \"") + "\"]\n\n")
+
+	// ---- across types: the type assertion at the head of each IsEquivalent ----
+	sb.WriteString("/-- One constructor per directive type. -/\ninductive Kind where\n")
+	for _, n := range names {
+		sb.WriteString("  | " + lowerFirst(n) + "\n")
+	}
+	sb.WriteString("deriving DecidableEq, Repr\n\n")
+	sb.WriteString("def Kind.all : List Kind := [" + joinMap(names, func(n string) string { return "." + lowerFirst(n) }) + "]\n\n")
+	sb.WriteString("/-- `assertOk i j`: the type assertion `od, ok := other.(X)` at the head of the IsEquivalent of\n")
+	sb.WriteString("directive type `i` can succeed on a value of directive type `j`. For an interface `X` of `i`'s\n")
+	sb.WriteString("package this is decided by method NAMES (every method of `X` beyond the embedded\n")
+	sb.WriteString("`directive.Directive` is the name of a method of `j`'s concrete type; signatures are not\n")
+	sb.WriteString("consulted, which over-approximates success); for `X = *T` it is `i = j`; a body that is\n")
+	sb.WriteString("`return false` has no assertion and the row is empty. Only the `true` entries are listed. -/\n")
+	sb.WriteString("def assertOk : Kind → Kind → Bool\n")
+	for i, a := range infos {
+		for j, b := range infos {
+			ok := false
+			why := ""
+			switch {
+			case a.never:
+			case a.assertConcrete:
+				ok = i == j
+				why = "*" + a.spec.goType
+			default:
+				ms, err := dirIfaceMethods(a.spec.file, a.assertIface)
+				if err != nil {
+					return "", err
+				}
+				ok = true
+				for _, m := range ms {
+					if !b.methodNames[m] {
+						ok = false
+					}
+				}
+				why = a.assertIface + " {" + strings.Join(ms, ", ") + "}"
+			}
+			if ok {
+				sb.WriteString(fmt.Sprintf("  | .%s, .%s => true  -- %s\n", lowerFirst(a.spec.lean), lowerFirst(b.spec.lean), why))
+			}
+		}
+	}
+	sb.WriteString("  | _, _ => false\n\n")
+	tp, ta := "", ""
+	for _, t := range allT {
+		tp += " (" + t + " : Type)"
+		ta += " " + t
+	}
+	sb.WriteString("/-- A directive of any of the covered types. -/\n")
+	sb.WriteString("inductive AnyDirective" + tp + " where\n")
+	for _, in := range infos {
+		args := ""
+		for _, t := range in.tparams {
+			args += " " + t
+		}
+		sb.WriteString(fmt.Sprintf("  | %s (d : %s%s)\n", lowerFirst(in.spec.lean), in.spec.lean, args))
+	}
+	sb.WriteString("\nnamespace AnyDirective\n")
+	impl := ""
+	for _, t := range allT {
+		impl += " {" + t + " : Type}"
+		if t != "U" {
+			impl += " [DecidableEq " + t + "]"
+		}
+	}
+	sb.WriteString("variable" + impl + "\n\n")
+	sb.WriteString("def kind : AnyDirective" + ta + " → Kind\n")
+	for _, in := range infos {
+		sb.WriteString(fmt.Sprintf("  | .%s _ => .%s\n", lowerFirst(in.spec.lean), lowerFirst(in.spec.lean)))
+	}
+	sb.WriteString("\n/-- `a.IsEquivalent(b)` for directives of any two types: `false` when the type assertion fails;\n")
+	sb.WriteString("the per-type comparison list when both are of the same type; and, pessimistically, `true` when\n")
+	sb.WriteString("the assertion succeeds across types (the comparisons would then run on the other type's\n")
+	sb.WriteString("getters, which is not modelled). -/\n")
+	sb.WriteString("def isEquivalent (urlString : U → Bytes) (a b : AnyDirective" + ta + ") : Bool :=\n")
+	sb.WriteString("  assertOk a.kind b.kind &&\n  match a, b with\n")
+	for _, in := range infos {
+		c := lowerFirst(in.spec.lean)
+		if in.hasURL {
+			sb.WriteString(fmt.Sprintf("  | .%s x, .%s y => %s.isEquivalent urlString x y\n", c, c, in.spec.lean))
+		} else {
+			sb.WriteString(fmt.Sprintf("  | .%s x, .%s y => x.isEquivalent y\n", c, c))
+		}
+	}
+	sb.WriteString("  | _, _ => true\n\nend AnyDirective\n")
 	sb.WriteString("\nend Bifrost.Gen.Directives\n")
 	return sb.String(), nil
+}
+
+func lowerFirst(s string) string {
+	// HTTP-style initialisms keep their case: only the first letter is lowered
+	return strings.ToLower(s[:1]) + s[1:]
+}
+
+func joinMap(l []string, f func(string) string) string {
+	o := make([]string, len(l))
+	for i := range l {
+		o[i] = f(l[i])
+	}
+	return strings.Join(o, ", ")
 }
 
 // ---------------------------------------------------------------------------------------------
